@@ -435,6 +435,7 @@ func checkFloors() []string {
 	need("init:doc", run.Scale(400, 40000))
 	need("put:entry-bytes-compared", run.Scale(800, 80000))
 	need("file-bytes:histories-compared", run.Scale(500, 50000))
+	need("file-bytes:read-by-model", run.Scale(500, 50000))
 	need("init:unparseable-but-loaded", run.Scale(2, 100))
 	need("init:symlinked-path", run.Scale(20, 2000))
 	need("store:disable-put", run.Scale(10, 1000))
